@@ -91,8 +91,14 @@ fn observe_rec(v: Value, path: &mut Vec<usize>, depth: usize) -> Obs {
                             }
                         }
                         let ko = observe_rec(*k, path, depth + 1);
+                        // the value is only followed if the table's own lookup still finds it: a
+                        // key that was mutated after the insert (a table used as a key) hashes
+                        // differently now, the entry is beyond the program's reach and the
+                        // collector is free to reclaim what it held
+                        let reachable = m.get(k).is_some();
                         let vo = match val {
-                            Some(v) => observe_rec(v, path, depth + 1),
+                            Some(v) if reachable => observe_rec(v, path, depth + 1),
+                            Some(_) => Obs::Ref(usize::MAX - 2), // stored, but no lookup finds it
                             None => Obs::Ref(usize::MAX - 1), // key listed but not in the map
                         };
                         entries.push((ko, vo));
